@@ -88,6 +88,8 @@ def gen_random(r, ntables, nreq):
                 if t["prx"] is None and all(1 <= m[1] < 32 for m in [(ty, code)] + more):
                     st["more"] = more
                     st["tags"] = tags + ["sequence"]
+                    if r.random() < 0.4:
+                        st["dests"] = "".join(r.choice("um") for _ in range(1 + len(more)))
             out.append(st)
     return out
 
@@ -182,6 +184,20 @@ def sweeps(tier):
             out.append({"t": TA, "hact": "69/-/68", "req": (ty1, 1, 7, b"\x31", pa, b""),
                         "more": [(ty2, 1, 7, b"\x31", pa, b""), (ty2, 1, 8, b"\x31", pa, b"")],
                         "mcast": False, "tags": ["sweep-async"], "kind": "sweep-async"})
+    # one peer, datagrams to different destinations (unicast / multicast): every datagram is
+    # judged by ITS destination (the session's local address follows the datagram)
+    reqs = [(1, 1, [(G.URI_PATH, b"zz")]), (0, 1, [(G.URI_PATH, b"zz")]), (1, 1, pa), (0, 1, pa),
+            (1, 3, [(G.URI_PATH, b"a"), (13, b"")]), (0, 33, []), (1, 1, [(G.URI_PATH, b"b")])]
+    for tbl in (T0, T1):
+        for dests in ("um", "mu", "umu", "mum", "mmu", "uum"):
+            for r1 in reqs:
+                for r2 in reqs:
+                    more = [(r2[0], r2[1], 12, b"\x22", r2[2], b"")]
+                    if len(dests) == 3:
+                        more.append((r1[0], r1[1], 13, b"\x23", r1[2], b""))
+                    out.append({"t": tbl, "hact": "69/-/68", "req": (r1[0], r1[1], 11, b"\x21", r1[2], b""),
+                                "more": more, "mcast": dests[0] == "m", "dests": dests,
+                                "tags": ["sweep-dest"], "kind": "sweep-dest"})
     # separator / escape bytes inside one Uri-Path or Uri-Query option against tables with
     # multi-segment paths: "a/b" in ONE option is not the resource a/b
     names = [b"a/b", b"a%2Fb", b"a", b"%41", b"A", b".", b"..", b"a/./b", b"a%25b", b"a%b", b"a/", b"/", b"%2F",
@@ -220,7 +236,8 @@ def sweeps(tier):
 
 def line_of(st):
     dgs = [G.serialize(*rq).hex() for rq in [st["req"]] + list(st.get("more", []))]
-    return " ".join(["c10"] + G.table_tokens(st["t"]) + [st["hact"], "m" if st["mcast"] else "u", "+".join(dgs)])
+    loc = st.get("dests") or ("m" if st["mcast"] else "u")
+    return " ".join(["c10"] + G.table_tokens(st["t"]) + [st["hact"], loc, "+".join(dgs)])
 
 
 class MultiAllowed(list):
@@ -337,7 +354,11 @@ def shrink(runner, st, want):
             yield dict(s, hact="69/-/-")
         more = s.get("more", [])
         for i in range(len(more)):
-            yield dict(s, more=more[:i] + more[i + 1:])
+            d = s.get("dests")
+            if d:
+                d = (d + d[-1] * len(more))[:len(more) + 1]
+                d = d[:i + 1] + d[i + 2:]
+            yield dict(s, more=more[:i] + more[i + 1:], dests=d)
     cur = st
     for _ in range(40):
         cands = list(variants(cur))
